@@ -9,15 +9,13 @@ package main
 // otherwise (the function was restructured) the whole group falls back to its defaults and `found_<group> := false`
 // (`found_<item>` per item). Nothing in Props/ depends on the `found_…` flags: with the defaults the model is what it
 // was before regeneration and the correspondence alone ties it to the code. The items that were not regenerated are
-// listed in `Gen.Dawg.notRegenerated` and in `<facts dir>/not_regenerated.DawgConsts.json`.
+// listed in `Gen.Dawg.notRegenerated` and in facts.json under `not_regenerated:DawgConsts.lean`.
 
 import (
-	"encoding/json"
 	"fmt"
 	"go/ast"
 	"go/constant"
 	"go/token"
-	"os"
 	"path/filepath"
 	"sort"
 	"strconv"
@@ -234,18 +232,12 @@ func c12List(a []int64) string {
 	return "[" + strings.Join(parts, ", ") + "]"
 }
 
-// c12WriteFacts records the items that were not regenerated next to the facts file (the facts map of main.go is not
-// reachable from a generator; the key it should be merged under is "not_regenerated:DawgConsts.lean").
+// c12WriteFacts records the items that were not regenerated in facts.json.
 func c12WriteFacts(missing []string) {
-	if len(os.Args) < 4 {
-		return
-	}
 	if missing == nil {
 		missing = []string{}
 	}
-	fb, _ := json.MarshalIndent(map[string]interface{}{"not_regenerated:DawgConsts.lean": missing}, "", " ")
-	os.MkdirAll(filepath.Dir(os.Args[3]), 0o755)
-	os.WriteFile(filepath.Join(filepath.Dir(os.Args[3]), "not_regenerated.DawgConsts.json"), fb, 0o644)
+	extraFacts["not_regenerated:DawgConsts.lean"] = missing
 }
 
 func init() {
